@@ -4,7 +4,7 @@ W="$1"; cd "$W" || exit 2
 export CARGO_TARGET_DIR="$W/target" CARGO_NET_OFFLINE=true
 LOG="$W/MUTANT/confirm.log"; : > "$LOG"
 DEMO=$(python3 -c "import json;print(json.load(open('$W/MUTANT/meta.json'))['demo_command'])")
-DEMO="${DEMO%%; rm *}"
+case "$DEMO" in *"exit \$rc"*) ;; *) DEMO="${DEMO%%; rm *}";; esac
 # 0. patch applies to a clean checkout
 git checkout -q -- . 2>/dev/null
 if ! git apply --check MUTANT/patch.diff 2>>"$LOG"; then echo "REJECTED $W: patch does not apply to the clean tree"; exit 1; fi
